@@ -48,6 +48,9 @@ def _cases(draw, nmax):
     c["units"] = draw(st.sampled_from([None, None, "1/cm", "eV", "THz"]))
     c["route"] = draw(st.sampled_from(["ctor", "ctor", "assign", "apply"]))
     c["reused"] = draw(st.sampled_from([False, False, True]))
+    # time axes may run backwards (negative step); a windowed transform of the same function object made in between
+    c["negative_step"] = draw(st.sampled_from([False, False, False, True]))
+    c["windowed_between"] = draw(st.sampled_from([False, False, True]))
     return c
 
 
@@ -80,6 +83,8 @@ def check_case(case, ctx):
     from ..core import guarded
     dom, atype, n = case["dom"], case["atype"], case["N"]
     step = case["step"]
+    if case.get("negative_step") and dom == "time" and not case.get("reused"):
+        step = -step
     y = numpy.array(case["data"][:n], dtype=float) + 1j * numpy.array(case["data"][n:], dtype=float)
     centred = case["centred"]
     if atype == "complete" or dom == "freq":
@@ -121,6 +126,12 @@ def _body(case, ctx, ax, x, y, tag, amp, idata):
     from quantarhei import DFunction
     from ..core import guarded
     dom, atype, n, step, centred = case["dom"], case["atype"], case["N"], case["step"], case["centred"]
+    backwards = n >= 2 and x[1] < x[0]
+    if backwards:
+        # a time axis running backwards: the axis and transform round trips are claimed, the comparison with the
+        # defining sum (whose sign convention for a negative dt is not stated) is not
+        centred = False
+        ctx.label("negative-step")
     if case.get("reused") and dom == "time" and atype == "upper-half":
         centred = centred or True       # after shift_to_zero an upper-half time axis starts at zero
     elif case.get("reused") and dom == "time" and x[0] == 0.0 and atype == "complete":
@@ -156,6 +167,19 @@ def _body(case, ctx, ax, x, y, tag, amp, idata):
     ok, F = guarded(ctx, "fourier-sum", lambda: f.get_Fourier_transform(), tag)
     if not ok:
         return
+    if case.get("windowed_between") and dom == "time":
+        # a windowed transform of the same function object, then the plain transform again: the function is unchanged
+        def windowed():
+            win = DFunction(ax, numpy.linspace(1.0, 0.25, n))
+            before = numpy.array(f.data)
+            Fw = f.get_Fourier_transform(window=win)
+            return before, numpy.array(f.data), numpy.array(Fw.data), numpy.array(f.get_Fourier_transform().data)
+        ok, wr = guarded(ctx, "fourier-sum", windowed, tag + "/windowed")
+        if ok:
+            ctx.close("windowed-transform-leaves-function", wr[1], wr[0], rtol=1e-15, scale=amp, where=tag)
+            ctx.close("windowed-transform-leaves-function", wr[3], numpy.array(F.data), rtol=1e-12,
+                      scale=max(1e-300, float(numpy.max(numpy.abs(F.data)))), where=tag + "/plain-transform-again")
+            ctx.label("windowed-between")
     k = idata(F.axis)
     if centred:
         if dom == "time" and atype == "complete":
